@@ -10,7 +10,9 @@ NOSIMD64 = {'SOXR_USE_SIMD64': '0'}
 def e2e_cfgs(tier):
     c = [Cfg(1, 2, LQ, DP, e2e=1), Cfg(1, 2, MQ, DP, e2e=1), Cfg(1, 2, HQ, DP, e2e=1), Cfg(2, 1, LQ, DP, e2e=1), Cfg(3, 2, LQ, DP, e2e=1),
          Cfg(2, 3, LQ, DP, e2e=1), Cfg(1, 3, LQ, DP, e2e=1), Cfg(4, 1, LQ, DP, e2e=1),
-         Cfg(1, 2, LQ, 0, e2e=1), Cfg(1, 2, LQ, 0, e2e=1, env=NOSIMD32), Cfg(1, 2, LQ, DP, e2e=1, env=NOSIMD64), Cfg(2, 1, LQ, 0, e2e=1, env=NOSIMD32)]
+         Cfg(1, 2, LQ, 0, e2e=1), Cfg(1, 2, LQ, 0, e2e=1, env=NOSIMD32), Cfg(1, 2, LQ, DP, e2e=1, env=NOSIMD64), Cfg(2, 1, LQ, 0, e2e=1, env=NOSIMD32),
+         # explicit stop-band above the output Nyquist frequency (aliasing allowed into the transition band only): decimating DFT stage without the F-domain shortcut
+         Cfg(2, 1, LQ, DP, e2e=1, passband=0.9, stopband=1.25, name='2_1_r1_f10_pass0.9_stop1.25')]
     if tier == 'thorough':
         c += [Cfg(1, 2, VHQ, 0, e2e=1), Cfg(1, 4, LQ, DP, e2e=1), Cfg(1, 4, HQ, DP, e2e=1), Cfg(2, 1, MQ, DP, e2e=1), Cfg(3, 1, LQ, DP, e2e=1),
               Cfg(3, 2, MQ, DP, e2e=1), Cfg(2, 3, MQ, DP, e2e=1), Cfg(4, 3, LQ, DP, e2e=1), Cfg(3, 4, LQ, DP, e2e=1), Cfg(8, 1, LQ, DP, e2e=1),
